@@ -157,6 +157,10 @@ func (s *Service) attest(
 	return attestations, nil
 }
 
+// maxValidatorsPerCommittee is the maximum number of validators in a committee (MAX_VALIDATORS_PER_COMMITTEE),
+// which is also the SSZ limit of the aggregation bits of an attestation.
+const maxValidatorsPerCommittee = 2048
+
 func (s *Service) createAttestations(_ context.Context,
 	duty *attester.Duty,
 	accounts []e2wtypes.Account,
@@ -173,6 +177,15 @@ func (s *Service) createAttestations(_ context.Context,
 			s.log.Warn().
 				Str("validator_pubkey", fmt.Sprintf("%#x", accounts[i].PublicKey().Marshal())).
 				Msg("No signature for validator; not creating attestation")
+			continue
+		}
+		if committeeSizes[i] > maxValidatorsPerCommittee {
+			// The aggregation bits of an attestation cannot hold more than this many validators,
+			// so a duty that claims a larger committee is invalid (and its bitlist could be unallocatable).
+			s.log.Warn().
+				Str("validator_pubkey", fmt.Sprintf("%#x", accounts[i].PublicKey().Marshal())).
+				Uint64("committee_size", committeeSizes[i]).
+				Msg("Committee size for validator too large; not creating attestation")
 			continue
 		}
 		aggregationBits := bitfield.NewBitlist(committeeSizes[i])
